@@ -14,7 +14,10 @@ PROPERTY = "C20"
 RULE = ("seeded archive generator (independent writer): visor / mixed / plain archives, 0..200 members, files / directories / "
         "symlinks / empty files, data areas in header, reversed, shuffled or size order with gaps (zero or garbage), alignment "
         "1..4096, members aliasing other members' bytes, ustar prefix names, GNU long names, four number encodings (incl. GNU "
-        "base-256), gzip-wrapped archives, data offsets at and beyond 2^31 (sparse 4 GiB files). Every member's listing fields and "
+        "base-256), gzip-wrapped archives, data offsets at and beyond 2^31 (sparse 4 GiB files); plus archives WRITTEN BY THE "
+        "LEAN WRITER of theorem vmtar_members_roundtrip (Hv/VmtarEnc.encode, run by the driver on generated member specs and "
+        "layouts inside the theorem's WF: shuffled data areas with gaps, inline members, directories, empty files, extreme "
+        "mode/uid/gid/mtime) and read back by the real vmtar.open. Every member's listing fields and "
         "the CRC of its extracted bytes (extracted twice, second time in reverse order) are compared: real code vs Lean model "
         "vs construction truth; plain archives are additionally compared with tarfile.open. Non-trivial = at least two members "
         "and at least one non-empty visor file placed in a data area (or, for plain archives, one non-empty file).")
@@ -40,6 +43,70 @@ def canon_member(d: dict, visor_fields: bool) -> str:
     return ",".join(f)
 
 
+def _pad512(n: int) -> int:
+    return (512 - n % 512) % 512
+
+
+def gen_enc_spec(rng) -> dict:
+    """Input of the Lean writer `Hv.VmtarEnc.encode` (theorem vmtar_members_roundtrip): member specs + layout.
+    Data areas are placed behind the end-of-archive blocks in shuffled order with random gaps (sometimes none)."""
+    n = rng.choice([1, 2, 2, 3, 4, 5, 6, 8])
+    alphabet = list(range(1, 256))
+    ms = []
+    for _ in range(n):
+        kind = rng.choice(["visor", "visor", "visor", "ustar", "ustar", "visor0", "dir", "vdir"])
+        ln = rng.choice([1, 2, 5, 17, 99, 100, rng.randint(1, 100)])
+        name = bytes(rng.choice(alphabet) if rng.random() < 0.2 else rng.choice(b"abcxyz019._-/") for _ in range(ln))
+        is_dir = kind in ("dir", "vdir")
+        if is_dir and rng.random() < 0.7:
+            name = name[:99] + b"/"
+        size = 0 if is_dir else rng.choice([0, 1, 3, 511, 512, 513, 1024, rng.randint(0, 1500)])
+        data = bytes(rng.getrandbits(8) for _ in range(size))
+        ms.append({"name": name.hex(), "dir": is_dir, "kind": kind, "data": data.hex(),
+                   "mode": rng.choice([0o644, 0o755, 0, 0o7777777, rng.randrange(8 ** 7)]),
+                   "uid": rng.choice([0, 1000, 8 ** 7 - 1]), "gid": rng.choice([0, 100, rng.randrange(8 ** 7)]),
+                   "mtime": rng.choice([0, 1700000000, 8 ** 11 - 1]), "visor": None})
+    hdr = 0
+    for m in ms:
+        inline = m["kind"] in ("ustar", "dir", "visor0", "vdir")
+        ln = len(m["data"]) // 2
+        hdr += 512 + ((ln + _pad512(ln)) if inline else 0)
+        if m["kind"] in ("visor0", "vdir"):
+            m["visor"] = 0
+    pos = hdr + 1024
+    area = [m for m in ms if m["kind"] == "visor"]
+    rng.shuffle(area)
+    for m in area:
+        pos += rng.choice([0, 0, 1, 7, 512, rng.randint(0, 700)])
+        m["visor"] = pos
+        pos += len(m["data"]) // 2
+    size = pos + rng.choice([0, 0, 3, 512])
+    return {"members": ms, "size": size, "seed": rng.randrange(251)}
+
+
+def _enc_line(e: dict) -> str:
+    toks = []
+    for m in e["members"]:
+        toks.append(",".join([m["name"] or "-", "d" if m["dir"] else "f", "-" if m["visor"] is None else str(m["visor"]),
+                              m["data"] or "-", str(m["mode"]), str(m["uid"]), str(m["gid"]), str(m["mtime"])]))
+    return f"vmtar.enc {e['size']} {e['seed']} " + " ".join(toks)
+
+
+def gen_enc_cases(rng, n: int) -> list[dict]:
+    """archives written by the Lean writer of the round-trip theorem (one driver batch); read back by the real vmtar.open"""
+    specs = [gen_enc_spec(rng) for _ in range(n)]
+    out = core.run_model([(f"e{i}", [_enc_line(e)]) for i, e in enumerate(specs)])
+    cases = []
+    for i, e in enumerate(specs):
+        ans = out.get(f"e{i}") or []
+        parts = ans[0].split(" ") if ans else []
+        if len(parts) != 4 or parts[0] != "ok":
+            continue                      # driver not built / refused: the writer cases are simply absent
+        cases.append({"id": f"e{i}", "recipe": {"enc": e, "wf": parts[1] == "1", "rt": parts[2] == "1", "hex": parts[3]},
+                      "queries": ["list"]})
+    return cases
+
+
 def generate(seed, tier):
     rng = random.Random(f"C20/{seed}/{tier}")
     n = 260 if tier == "quick" else 3000
@@ -47,11 +114,45 @@ def generate(seed, tier):
     for i in range(n):
         r = gen_vmtar.gen_recipe(rng, tier)
         cases.append({"id": f"g{i}", "recipe": r, "queries": ["list"]})
+    cases += gen_enc_cases(random.Random(f"C20enc/{seed}/{tier}"), 40 if tier == "quick" else 300)
     return cases
+
+
+def build_enc(case):
+    """truth for a writer case, from the member specs alone (independent of the Lean `expected`)"""
+    from sparse import Image
+    r = case["recipe"]
+    e = r["enc"]
+    data = bytes.fromhex(r["hex"])
+    truth, pos = [], 0
+    for m in e["members"]:
+        name = bytes.fromhex(m["name"])
+        body = bytes.fromhex(m["data"])
+        inline = m["visor"] in (None, 0)
+        is_visor = m["visor"] is not None
+        d = {"name": (name.rstrip(b"/") if m["dir"] else name).decode("utf-8", "surrogateescape"),
+             "type": "dir" if m["dir"] else "file", "size": len(body), "mode": m["mode"], "uid": m["uid"], "gid": m["gid"],
+             "mtime": m["mtime"], "uname": "", "gname": "", "linkname": "", "hdr": pos,
+             "offset_data": pos + 512 if inline else m["visor"], "crc32": zlib.crc32(body) & 0xFFFFFFFF, "xlen": None,
+             "is_visor": is_visor, "text_pgs": 0, "fixup_pgs": 0}
+        truth.append(canon_member(d, True))
+        pos += 512 + ((len(body) + _pad512(len(body))) if inline else 0)
+    ms = e["members"]
+    branches = sorted({"enc-writer"} | {"enc-" + m["kind"] for m in ms})
+    nt = len(ms) >= 2 and any(m["kind"] == "visor" and m["data"] for m in ms)
+    im = Image(len(data))
+    im.put_hex(0, data)
+    bl = Built({"a": im}, ["N%d" % len(ms)] + truth,
+               {"branches": branches, "in_scope": True, "compare_model_out_of_scope": True, "nontrivial": nt, "plain": False,
+                "gz": False, "enc": True, "enc_wf": bool(r["wf"]), "enc_rt": bool(r["rt"])})
+    bl.data = data
+    return bl
 
 
 def build(case):
     r = case["recipe"]
+    if "enc" in r:
+        return build_enc(case)
     b = gen_vmtar.build(r)
     ms = b["members"]
     for t, m in zip(ms, r["members"]):
@@ -153,6 +254,11 @@ def model_parse(case, built, out):
     if built.info["plain"] and len(out) > 1:
         ans = ans + _parse_list(out[1], False)
     unsupported = any(l.startswith("unsupported") for l in out)
+    if built.info.get("enc"):
+        # a case inside the hypotheses of vmtar_members_roundtrip: the evaluated instance of the theorem must hold
+        if built.info["enc_wf"] and not built.info["enc_rt"]:
+            ans = (ans or []) + ["ROUNDTRIP-INSTANCE-FAILED"]
+        return {"answers": ans, "wf": built.info["enc_wf"] and built.info["enc_rt"], "raw": [l[:200] for l in out]}
     return {"answers": None if unsupported else ans, "wf": (not unsupported) and built.info["in_scope"], "raw": [l[:200] for l in out]}
 
 
@@ -168,6 +274,8 @@ def search(seed, broken, budget):
 def shrink(case):
     """drop members while the implementation still disagrees with construction truth"""
     r = case["recipe"]
+    if "enc" in r:
+        return case                  # writer cases are small (≤ 8 members) and carry their bytes; reported as they are
 
     def failing(rec):
         c = dict(case, recipe=rec)
